@@ -702,7 +702,12 @@ func c01JSONEdit(r *vf.Rand, data []byte, w c01Valid) ([]byte, string) {
 			map[string]any{"protected": "eyJhbGciOiJub25lIn0", "signature": ""},
 			map[string]any{"signature": "AAAA"},
 			map[string]any{"protected": "e30", "header": map[string]any{"alg": "HS256"}, "signature": "AAAA"},
-		}[r.Intn(4)]
+			// junk entries that say something about b64 (eyJhbGciOiJIUzI1NiIsImI2NCI6ZmFsc2UsImNyaXQiOlsiYjY0Il19 =
+			// {"alg":"HS256","b64":false,"crit":["b64"]}; …dHJ1ZX0 = {"alg":"HS256","b64":true})
+			map[string]any{"protected": "eyJhbGciOiJIUzI1NiIsImI2NCI6ZmFsc2UsImNyaXQiOlsiYjY0Il19", "signature": "AAAA"},
+			map[string]any{"protected": "eyJhbGciOiJIUzI1NiIsImI2NCI6dHJ1ZX0", "signature": "AAAA"},
+			map[string]any{"protected": "eyJhbGciOiJIUzI1NiIsImI2NCI6ZmFsc2UsImNyaXQiOlsiYjY0Il19", "header": map[string]any{"kid": "zz"}, "signature": ""},
+		}[r.Intn(7)]
 		if wm, ok := DecodeJSONMap(w.Case.Data); ok && r.Bool() {
 			if a, ok := wm["signatures"].([]any); ok && len(a) > 0 {
 				extra = a[0]
@@ -794,6 +799,75 @@ func c01JSONEdit(r *vf.Rand, data []byte, w c01Valid) ([]byte, string) {
 		return data, "json-unmarshalable"
 	}
 	return out, tag
+}
+
+// ---------------------------------------------------------------------------------------------
+// header presence × b64 grid (the shape of the defect fixed by 47ca076 and its mirrors): a general
+// JSON message with ONE genuine entry and junk entries anyone could add, where each of them has or
+// lacks a protected header and says b64 = false / true / nothing.
+
+func c01GenB64Grid(r *vf.Rand, alg c01AlgInfo, g, j, order int) c01Case {
+	k := c01KeyFor(alg, r.Intn(4))
+	payload := []byte(fmt.Sprintf(`{"iss":"joe","admin":false,"n":%d}`, r.Intn(1000)))
+	enc := func(m map[string]any) string {
+		b, _ := json.Marshal(m)
+		return c01b64.EncodeToString(b)
+	}
+	// genuine entry
+	var gProt string
+	gHasProt, gNB64 := true, false
+	var gUnprot map[string]any
+	switch g {
+	case 0:
+		gProt = enc(map[string]any{"alg": alg.Name})
+	case 1:
+		gProt, gNB64 = enc(map[string]any{"alg": alg.Name, "b64": false, "crit": []any{"b64"}}), true
+	case 2:
+		gHasProt, gUnprot = false, map[string]any{"alg": alg.Name}
+	default:
+		gProt, gUnprot = enc(map[string]any{"kid": "k0"}), map[string]any{"alg": alg.Name}
+	}
+	payloadText := c01b64.EncodeToString(payload)
+	if gNB64 {
+		payloadText = string(payload)
+	}
+	sg, _ := c01StdSign(alg.Name, k, []byte(gProt+"."+payloadText), r)
+	genuine := map[string]any{"signature": c01b64.EncodeToString(sg)}
+	if gHasProt {
+		genuine["protected"] = gProt
+	}
+	if gUnprot != nil {
+		genuine["header"] = gUnprot
+	}
+	// junk entry
+	junk := map[string]any{"signature": "AAAA"}
+	switch j {
+	case 0:
+		junk["protected"] = enc(map[string]any{"alg": alg.Name, "b64": false, "crit": []any{"b64"}})
+	case 1:
+		junk["protected"] = enc(map[string]any{"alg": alg.Name})
+	case 2:
+		junk["header"] = map[string]any{"alg": alg.Name}
+	default:
+		junk["protected"] = enc(map[string]any{"alg": alg.Name, "b64": true})
+	}
+	var sigs []any
+	switch order {
+	case 0:
+		sigs = []any{junk, genuine}
+	case 1:
+		sigs = []any{genuine, junk}
+	default:
+		sigs = []any{junk, genuine, junk}
+	}
+	data, _ := json.Marshal(map[string]any{"payload": payloadText, "signatures": sigs})
+	variant := "pub"
+	if alg.Family == "hs" {
+		variant = "priv"
+	}
+	return c01Case{Kind: "jws-json", Data: data, Configured: true, Allowed: []string{alg.Name},
+		Finder: c01Finder{Mode: "fixed", Alg: alg.Name, Key: c01KeyRef{Idx: k.Idx, Variant: variant}},
+		Tag:    fmt.Sprintf("b64grid-genuine%d-junk%d-order%d", g, j, order)}
 }
 
 // ---------------------------------------------------------------------------------------------
@@ -1013,6 +1087,15 @@ func runC01(c *vf.Ctx) {
 			}
 			for i := 0; i < c.Budget(30, 60); i++ {
 				c01Exec(c, d, c01Hostile(r))
+			}
+			// header presence × b64 grid, every combination each round, algorithm rotating
+			gridAlg, _ := c01AlgByName([]string{"HS256", "ES256", "EdDSA", "RS256", "HS512", "ES256K", "PS256"}[(round+w)%7])
+			for g := 0; g < 4; g++ {
+				for j := 0; j < 4; j++ {
+					for o := 0; o < 3; o++ {
+						c01Exec(c, d, c01GenB64Grid(r, gridAlg, g, j, o))
+					}
+				}
 			}
 		}
 	})
